@@ -56,7 +56,32 @@ def gen_cases(rng, n, tier):
     return out
 
 
+def gen_sp_program2(rng):
+    """several entities and classes: a versioned flush of another class before the savepoint (so the transaction
+    record exists outside it), inner work on one entity, later work on the same or on another entity"""
+    prog = [['add', 0, 1, {'a': 1}], ['add', 0, 2, {'a': 1}], ['add', 1, 1, {'a': 0}], ['add', 3, 1, {'a': 0}], ['commit']]
+    for rnd in range(rng.randint(1, 3)):
+        if rng.random() < 0.6:
+            prog.append(['set', 1, 1, {'a': rng.choice([0, 1, 2])}])
+            prog.append(['flush'])
+        prog.append(['sp_begin'])
+        kin = rng.choice([1, 2])
+        prog.append(rng.choice([['set', 0, kin, {'b': rng.choice([0, 1, 2])}], ['set', 3, 1, {'a': rng.choice([0, 1, 2])}],
+                                ['add', 0, 3 + rnd, {'a': 1}]]))
+        if rng.random() < 0.8:
+            prog.append(['flush'])
+        prog.append([rng.choice(['sp_rollback', 'sp_rollback', 'sp_release'])])
+        if rng.random() < 0.8:
+            prog.append(['set', 0, rng.choice([1, 2]), {'a': rng.choice([0, 1, 2])}])
+            if rng.random() < 0.5:
+                prog.append(['flush'])
+        prog.append(['commit'])
+    return prog
+
+
 def gen_sp_program(rng):
+    if rng.random() < 0.5:
+        return gen_sp_program2(rng)
     prog = [['add', 0, 1, {'a': 1}], ['add', 3, 1, {'a': 0}], ['commit']]
     for rnd in range(rng.randint(1, 3)):
         if rng.random() < 0.5:
@@ -237,7 +262,20 @@ def _tables(sn):
     return json.dumps({k: sn[k] for k in ('live', 'vt', 'av', 'alive', 'tx', 'chg')}, sort_keys=True, default=str)
 
 
-def classify(case, obs):
+RELAX = [('F-C06-savepoint-inner-flush', 'C06_prop_sp')]
+RELAX_ALL = 'C06_prop_sp'
+
+
+def relax_guard(case, obs, fid):
+    return _sp_pattern(case, obs) == fid
+
+
+def classify_corr(case, obs):
+    # the savepoint model mirrors the code as it is (open finding included): a disagreement is never explained by it
+    return None
+
+
+def _sp_pattern(case, obs):
     if case['kind'] != 'S' or obs.get('harness_exc'):
         return None
     # open finding: a savepoint is rolled back over a versioned flush
